@@ -214,7 +214,7 @@ def shard_history(args):
 
     ref = D.Ref()
     acc = Acc(seed=seed)
-    seqs = [bytes([b]) for b in range(256)] + sorted(k for k in ref.T if len(k) > 1) + ["ß".encode(), "∂".encode(), "😀".encode()]
+    seqs = [bytes([b]) for b in range(256)] + sorted(k for k in ref.T if len(k) > 1) + sorted(ref.P) + ["ß".encode(), "∂".encode(), "😀".encode()]
     seqs = seqs[part::4]
     first_seen = {}
     orders = list(it.permutations(D.ENCODINGS))
@@ -237,6 +237,30 @@ def shard_history(args):
                             first_seen[key] = r
                         elif first_seen[key] != r:
                             acc.failure("C03:decoding_depends_on_history", {"seq": seq.hex(), "encoding": enc, "mode": mi, "full": full}, "first %r, later %r" % (first_seen[key], r))
+    # the process has now decoded everything in every order: the per-state oracles (and the mode lock-step of C20) must still hold
+    for seq in seqs:
+        for enc in D.ENCODINGS:
+            D.evaluate(ref, acc, enc, seq)
+    return acc.export()
+
+
+def shard_paste(args):
+    """The decoder as driven by Input's paste loop (multi-kilobyte bursts read 1 024 bytes at a time): a recognised sequence or a
+    character lying across a read boundary must still come out whole.  Reuses C08's virtual kernel and large-burst scenarios."""
+    tier, seed, idx = args
+    from mc import vk
+    from mc.props import c08
+
+    acc = Acc(seed=seed)
+    scns = [s_ for s_ in c08.family_large(tier == "thorough") if s_["paste_threshold"] == 8]
+    for si in range(idx, len(scns), 8):
+        scn = scns[si]
+        obs, fails, meta = c08.run_scenario(scn, vk.Chooser(()))
+        acc.case(True, key=("paste", si), sample={"burst_bytes": len(scn["script"][0][1]), "units": len(scn["units"])})
+        acc.transitions += 1
+        for sig, msg in fails:
+            if "cut_wrong" in sig or "out_of_order" in sig or sig.startswith("C08:send_raises"):
+                acc.failure("C03:paste_loop_breaks_up_a_keypress", {"burst_bytes": len(scn["script"][0][1]), "first_units": [u.hex() for u in scn["units"][:6]]}, "%s: %s" % (sig, msg))
     return acc.export()
 
 
@@ -301,6 +325,8 @@ def run(ctx, keep=PREFIX):
         rep.merge(d, "encoding_aliases")
     for d in ctx.pmap(shard_history, [(ctx.tier, ctx.seed, i) for i in range(4)]):
         rep.merge(d, "history_independence")
+    for d in ctx.pmap(shard_paste, [(ctx.tier, ctx.seed, i) for i in range(8)]):
+        rep.merge(d, "paste_loop")
     for d in ctx.pmap(shard_streams_table, [(ctx.tier, ctx.seed, enc, i) for enc in D.ENCODINGS for i in range(16)]):
         rep.merge(d, "streams_table")
     step = 1 if ctx.thorough else 64
